@@ -51,6 +51,18 @@ def q_cases(ctx, n):
             out.append(c01.make_q(c["R"], [tuple(x) for x in c["tm"]], c["ticks"], direct=True))
     out.append(c01.make_q(10 ** 6, [(0, 640000000), (6, 10 ** 9), (11, 999999999)], list(range(0, 30)), direct=True))
     while len(out) < n:
+        if rng.random() < 0.15:
+            # a long passage in ONE ordinary tempo whose beat is not a whole number of microseconds: ticks around beat boundaries
+            # minutes into the song (whole beats must not be timed by another rule than the ticks next to them)
+            R = rng.choice([480, 192, 960])
+            bpm = rng.choice([290000, 170000, 133000, 97000, 143000, 201000])
+            ks = sorted(rng.sample(range(200, 6000), 18))
+            ticks = sorted({k * R + d for k in ks for d in (-1, 0, 1)})
+            c = c01.make_q(R, [(0, bpm)], ticks, direct=True)
+            c["tags"] = ["q:long_single_tempo"]
+            c["nontrivial"] = True
+            out.append(c)
+            continue
         R, tm, mode = gen_tm(rng)
         ticks = set()
         for t, _ in tm:
@@ -76,6 +88,9 @@ def make_c(rng):
         # no tempo at tick 0 (dropped, or the whole map shifted): the chart is rejected, never timed from a made-up tempo
         tm = tm[1:] if rng.random() < 0.5 else [(t + rng.choice([1, 5, R]), n) for t, n in tm]
     sync = ["0 = TS 4"] + ["%d = TS 3 2" % t for t in at(2) if t > 0] + tempo_lines(tm)
+    if rng.random() < 0.35 and tm:
+        # stale tempo anchors on the ticks of tempo changes: recorded, never used for timing
+        sync += ["%d = A %d" % (t, rng.choice([0, 1, 500, 10 ** 6, rng.randint(0, 10 ** 7)])) for t in sorted(rng.sample([x for x, _ in tm], min(len(tm), rng.randint(1, 3))))]
     ev = ['%d = E "section s"' % t for t in at(2)] + ['%d = E "lyric l"' % t for t in at(2)] + ['%d = E "t"' % t for t in at(2)]
     def body():
         b = ["%d = N %d %d" % (t, rng.randrange(5), rng.choice([0, 1, 5, end])) for t in at(4)]
